@@ -203,6 +203,12 @@ def probe():
     return _probe
 
 
+def case_number(case):
+    """A number derived from the case content alone (so that replays take the same branches)."""
+    d = [numpy.asarray(x) for x in case["dense"]]
+    return int(sum(int(x.sum()) + x.size for x in d) + sum(case["commons"]) + len(d))
+
+
 def judge(ctx, case):
     import catii
 
@@ -261,6 +267,26 @@ def judge(ctx, case):
     if bad:
         ctx.violation("count:%s:%s" % (bad[0], feat), bad[1], case)
         return
+    # The same index OBJECT may stand for two dimensions of one cube (a variable crossed with itself).
+    if dense and 0 < n <= 2 ** 20 and case_number(case) % 4 == 0:
+        j = case_number(case) // 4 % len(dense)
+        pos = case_number(case) // 16 % (len(dense) + 1)
+        dense_r = dense[:pos] + [dense[j]] + dense[pos:]
+        dims_r = dims[:pos] + [dims[j]] + dims[pos:]
+        shape_r = exp_shape[:pos] + (exp_shape[j],) + exp_shape[pos:]
+        cells = int(numpy.prod(oracles.scaffold_shape(dense_r) + shape_r))
+        if cells <= 100000:
+            ctx.count("class:same_index_object_as_two_dimensions")
+            if dense[j].ndim > 1:
+                ctx.count("class:same_multi_axis_object_as_two_dimensions")
+            res_r = catii.ccube(dims_r, interacting_shape=shape_r if shape is not None else None).count(return_missing_as=rma)
+            ref_vr, ref_mr = oracles.reference("count", dense_r, shape_r, n)
+            ctx.evaluation({"d": dense, "c": commons, "s": shape, "r": repr(rma), "twice": [j, pos]}, True)
+            bad = oracles.compare(res_r, rma, ref_vr, ref_mr, 0.0)
+            if bad:
+                ctx.violation("count-with-one-object-as-two-dimensions:%s:%s" % (bad[0], feat),
+                              "dimension %d given again (the same object) at position %d: %s" % (j, pos, bad[1]), case)
+                return
     # The dimensions are ordinary mutable indexes: after cells of one of them are re-assigned in place
     # (between categories that stay inside the cube's extents) a new cube over the same objects must
     # count the new data.
